@@ -81,6 +81,7 @@ def run(ctx):
     ctx.guard(r3)
     ctx.guard(r4)
     ctx.guard(r5)
+    ctx.guard(r6_fiber_replace)
     ctx.assume("the boxed values' own operators are correct (int/float "
                "arithmetic of Python)")
 
@@ -802,3 +803,48 @@ def _check_form_body(ctx, f, mname, fiber_form, loop):
                 % (mname, "fiber" if fiber_form else "scalar", why,
                    " ; ".join(text(s) for s in loop.body)[:80]),
                 text_="Fiber.%s %s body" % (mname, "fiber" if fiber_form else "scalar"))
+
+
+def r6_fiber_replace(ctx):
+    """`f <<= g` on fibers replaces the content of f: whatever f held is
+    dropped before g's elements are copied in.  The two stores that empty the
+    coordinate and payload lists run unconditionally, or under no other test
+    than "f is not empty"."""
+    f = ctx.method("Fiber", "__ilshift__")
+    me = f.params[0]
+    lst_c, lst_p = "%s.coords" % me, "%s.payloads" % me
+    ln = "len(%s)" % lst_c
+    nonempty = {("truth", lst_c, True), ("truth", ln, True), pat.A("<", "0", ln),
+                pat.A("!=", ln, "0"), pat.A("<=", "1", ln),
+                ("truth", "%s.isEmpty()" % me, False)}
+    clears = {}
+    for n in f.own_nodes():
+        if isinstance(n, ast.Assign) and text(n.targets[0]) in (lst_c, lst_p) and \
+                isinstance(n.value, (ast.List, ast.Call)) and \
+                text(n.value).replace(" ", "") in ("[]", "list()"):
+            clears[text(n.targets[0])] = n
+        elif isinstance(n, ast.Call) and isinstance(n.func, ast.Attribute) and \
+                n.func.attr == "clear" and text(n.func.value) in (lst_c, lst_p):
+            clears[text(n.func.value)] = enclosing_stmt(n)
+    bad = None
+    if set(clears) != {lst_c, lst_p}:
+        bad = "it no longer empties both %s and %s" % (lst_c, lst_p)
+    else:
+        for k, st in clears.items():
+            g = pat.catoms_of_guards(ctx, f, st)
+            g = {a for a in g if not (a[0] == "truth" and ("isLazy" in a[1] or
+                                                          (a[1] == "True" and a[2])))}
+            if not g <= nonempty:
+                bad = "%s is emptied only when %s" % (k, sorted(map(str, g - nonempty)))
+        copies = [lp for lp in f.own_nodes() if isinstance(lp, ast.For)]
+        g_ = cfg_of(f, assert_edges=False)
+        if not bad and copies and not all(g_.can_reach(st, copies[0]) for st in clears.values()):
+            bad = "the content is emptied after the copy loop"
+    if bad:
+        ctx.bad("C11.R5", f, f.node, "Fiber.__ilshift__: %s -- `f <<= g` must replace "
+                "what f held, so elements of f at coordinates g does not have "
+                "would survive" % bad, text_="Fiber.__ilshift__ replaces")
+    else:
+        ctx.ok("C11.R5", f, list(clears.values())[0], "`<<=` empties the destination "
+               "before copying", text_="Fiber.__ilshift__ replaces")
+
